@@ -113,6 +113,14 @@ class BareError(Exception):
     pass
 
 
+class CtorError(Exception):
+    """A constructor signature that differs from `args` (cannot be rebuilt from args: no copy.copy, no plain pickling)."""
+
+    def __init__(self, field, problem):
+        super().__init__(f"{field}: {problem}")
+        self.field, self.problem = field, problem
+
+
 _SAME_INSTANCES = {}
 
 
@@ -130,6 +138,10 @@ def make_exc(spec):
         return ProbeError(spec[1], spec[2])
     if kind == "RuntimeError":
         return RuntimeError(spec[1])
+    if kind == "StopIteration":
+        return StopIteration(spec[1])
+    if kind == "Ctor":
+        return CtorError(spec[1], spec[2])
     raise AssertionError(spec)
 
 
